@@ -19,6 +19,18 @@ def check_C05(ctx):
     if mm2 is None:
         return
     report_mismatches(ctx, mm2, st2, "the tree invariant (walk terminates, listing = lookups, Nlink = number of names) is broken on the implementation or on the model state in %d histories")
+    # fixed witnesses: RemoveAll interrupted by EACCES after it deleted something (rare in the random stream)
+    import os
+    from .. import ROOT
+    wf = os.path.join(ROOT, "corpus", "C05-fsinv.cases")
+    if os.path.exists(wf):
+        wl = [l.strip() for l in open(wf) if l.strip() and not l.startswith("#")]
+        st3 = {"name": "fsinv-corpus", "harness": "fsinv", "driver": "fsinv"}
+        mm3 = ctx.stream("fsinv-corpus", "fsinv", "fsinv", replay_lines=wl)
+        if mm3 is None:
+            return
+        ctx.coverage["streams"]["fsinv-corpus"] = {"witness_histories": len(wl), "mismatches": len(mm3)}
+        report_mismatches(ctx, mm3, st3, "the tree invariant is broken after an interrupted RemoveAll on %d fixed witness histories (corpus/C05-fsinv.cases)", shrink=False)
     # OrefaFS: model tie (C05_orefa_* are proved about Fs/OrefaFS.v) and the fixed witness histories
     from .c01 import orefa_part, fs_corpus_part
     orefa_part(ctx)
